@@ -35,9 +35,10 @@ ASSUMPTIONS = [
     '(theta = |w| dt from 1e-5 to 0.5 rad), explicit dt / Dt / frequency arguments everywhere (the import-time WMM object '
     'and default Dt = 0.01 play no role)',
     'attitudes are compared up to the common sign of the quaternion (the statement is about attitudes); max-abs component',
-    'closed form, step count n: tol (n+1)*1e-14 (design: n*1e-14); rounding of one step is <= ~4 ulp and accumulates at '
-    'most linearly; worst observed on the unchanged tree over the thorough grid: 2.4e-15 at n = 1000 (see worst.closed.*), '
-    'tol/observed >= 100 at every n; the smallest mutation (wrong half angle at theta = 1e-5) moves one step by 2.5e-6',
+    'closed form, step count n: tol (n+4)*1e-14 (design: n*1e-14); rounding of one step is <= ~4 ulp and accumulates at '
+    'most linearly; worst observed (thorough grid, see worst_observed closed.*): 3e-16 at n = 1, 3.7e-14 at n = 1000 with '
+    'a total angle of 500 rad, where the rounding of n*theta inside the reference dominates; observed/tol <= 0.009 at '
+    'every n; the smallest mutation (wrong half angle at theta = 1e-5) moves one step by 2.5e-6',
     'series: the reference is q (x) normalise(sum_{j<=k} (dt/2 (0,w))^j / j!) — the formula in the docstring of '
     'AngularRate.update, evaluated with scalar cos/sin partial sums; floor 1e-13 (observed <= 5e-16 for orders 0,1); '
     'order bound with constant 1: err_k <= theta^(k+1) + 1e-13 (the ideal normalised truncation has err_k <= '
@@ -46,13 +47,14 @@ ASSUMPTIONS = [
     'dead reckoning: 1e-12 absolute (design); observed <= 5e-16. EKF.f is documented un-normalised and is normalised '
     'before the comparison. A gyro sample that is exactly zero must leave the attitude unchanged (the first-order step '
     'with w = 0). Filter objects are reused along a chain (no hidden state may leak when the accelerometer is null)',
-    'angular_velocities: absolute tolerance 1e-13 * 2/dt rad/s (bilinear form of unit quaternions: ~5 roundings of '
-    '1.1e-16, scaled by 2/dt; observed <= 8e-16 * 2/dt); input sequences are generated by the reference model',
+    'angular_velocities: absolute tolerance 1e-12 * 2/dt rad/s (bilinear form of unit quaternions scaled by 2/dt; the '
+    'input rows come from the reference model at total angles up to 150 rad, whose own rounding gives the observed '
+    'worst 7.2e-15 * 2/dt, observed/tol <= 0.0072); a sign slip or lost factor moves the result by >= 1e-2 rad/s',
     're-integration: rotation angle between row i and the original row i <= sum_{j<=i} (theta_j - 2 sin(theta_j/2)) '
     '* (1 + 1e-2) + (i+1) * 1e-13  (the chord rate (2/dt) sin(theta/2) under-rotates each step by ~theta^3/24)',
     "method='integration' (cumulative Euler angles, ignores q0 by construction) is judged only for rates along one body "
-    'axis, from the identity, row i = axis-angle((i+1) theta); tol 1e-13 + (i+1) * max(1, (i+1) theta) * 1e-15 (the '
-    'running sum of i terms carries up to i roundings relative to its own size; observed/tol <= 0.05)',
+    'axis, from the identity, row i = axis-angle((i+1) theta); tol 1e-13 + (i+1) * max(1, (i+1) theta) * 2e-15 (the '
+    'running sum of i terms carries up to i roundings relative to its own size; observed/tol <= 0.0063)',
     'non-constant rates, non-unit attitudes, representation=rotmat/angles and the MARG/accelerometer-present branches '
     'are out of scope',
 ]
@@ -74,7 +76,7 @@ def _dts(ctx):
 
 
 def _nmax(ctx):
-    return 1000 if ctx.thorough else 300
+    return 600 if ctx.thorough else 300
 
 
 def _q0s(ctx):
@@ -91,7 +93,7 @@ def _q0s(ctx):
 def _axes(ctx):
     base = [(f'a{i}({v[0]:g},{v[1]:g},{v[2]:g})', v / math.sqrt(float(v @ v))) for i, v in enumerate(A.AXES())]
     if ctx.thorough:
-        base += [('-' + n, -v) for n, v in base]
+        base += [('-' + n, -v) for n, v in base[-4:]]          # the four generic axes also reversed
     return base
 
 
